@@ -76,6 +76,8 @@ def draw_profile(rng, prop, faults, tier='quick'):
               'mutate_value', 'mutate_index', 'mutate_format', 'mutate_config', 'registers',
               'templates', 'containers', 'strings']
     p['groups'] = sorted(g for g in groups if rng.random() < 0.75)
+    # index kinds: lists, integer arrays and boolean masks next to the basic ones (copies, not views)
+    p['adv_index'] = rng.random() < 0.6
     return p
 
 
@@ -388,6 +390,31 @@ class Gen(object):
             if nd < len(shape) and ix[-1] == ['el'] and r.random() < 0.5 and len(shape) - nd >= 1:
                 ix.append(r.randrange(shape[-1]))       # x[..., j]
             return ix if len(ix) > 1 else ix[0]
+        if self.p.get('adv_index') and r.random() < 0.14:
+            # advanced indexes: a list / integer array of distinct positions along the first axis
+            # (alone, or with a basic index on the second), or a boolean mask (first axis or full shape)
+            n0 = shape[0]
+            q = r.random()
+            if q < 0.55:
+                picks = r.sample(range(n0), r.randint(1, n0))
+                if r.random() < 0.3:
+                    picks = [p - n0 if r.random() < 0.5 else p for p in picks]
+                first = [r.choice(['fx', 'fx', 'ia']), picks]
+                if len(shape) >= 2 and r.random() < 0.4:
+                    second = r.randrange(shape[1]) if r.random() < 0.5 else ['sl', None, None, r.choice([None, -1])]
+                    return [first, second]
+                return first
+            if q < 0.8 or len(shape) < 2:
+                m = [r.random() < 0.5 for _ in range(n0)]
+                if not any(m):
+                    m[r.randrange(n0)] = True
+                return ['bm', m]
+            m = [[r.random() < 0.5 for _ in range(shape[1])] for _ in range(n0)]
+            if len(shape) == 2:
+                if not any(any(row) for row in m):
+                    m[0][0] = True
+                return ['bm', m]
+            return [['sl', None, None, None], ['fx', r.sample(range(shape[1]), r.randint(1, shape[1]))]]
         ix = []
         nd = r.randint(1, len(shape))
         for ax in range(nd):
